@@ -96,6 +96,8 @@ def collect_items(m, stub, loc, ret):
             items.append((name, E.num(v)))
         elif isinstance(v, E):
             items.append((name, v))
+        elif isinstance(v, list) and len(v) == 1:
+            add(name, v[0])
         elif isinstance(v, ND):
             for k in v.keys():
                 items.append((name + '_' + ''.join(str(x) for x in k), v.get(k)))
